@@ -10,7 +10,7 @@
 #include "ops.h"
 #include "roalloc.h"
 
-#define MAXT 16
+#define MAXT 64
 typedef struct {
   int op, envi;
   uint64_t seed;
@@ -371,6 +371,33 @@ static void allocation_case(uint64_t N, int T, unsigned rep) {
   case_end(1);
 }
 
+// thread churn: waves of short-lived threads (each lives for two calls per entry point, then exits; hundreds of threads
+// per case): whatever the library keeps per thread must be set up correctly in every new thread and must not outlive it
+// in a way that hurts the threads that come later
+static void thread_churn_case(uint64_t N, unsigned rep) {
+  if (!case_begin("concurrent:thread churn|waves of 8 short-lived threads", "N=%" PRIu64 " rep=%u", N, rep)) return;
+  tsan_reports_in_case = 0;
+  env_t* e = env_create(N, DISP_NATIVE);
+  const char* names[64];
+  int n = 0;
+  for (int i = 0; i < N_CAT_OPS && n < 64; i++)
+    if ((OPS[i].flags & OPF_SIMPLE) || !strcmp(OPS[i].name, "znx_small_single_product") || !strcmp(OPS[i].name, "vec_znx_automorphism(res==a)") || !strcmp(OPS[i].name, "vec_znx_idft") || !strcmp(OPS[i].name, "vmp_apply_dft")) names[n++] = OPS[i].name;
+  // documented warm-up of the *_simple functions for this dimension
+  for (int i = 0; i < n; i++) {
+    opres_t w;
+    op_exec(&OPS[op_find(names[i])], e, 1, 0, 0, 0, &w);
+  }
+  uint64_t calls = 0, bad = 0;
+  char msg[240] = "";
+  for (int wave = 0; wave < (N <= 1024 ? 6 : 2); wave++) bad += ops_concurrent_check(names, n, e, 8, 2, G.seed * 31337 + rep * 101 + (uint64_t)wave, msg, sizeof msg, &calls);
+  if (bad) viol("differential", "%s (%" PRIu64 " differing calls across waves of short-lived threads)", msg, bad);
+  if (tsan_reports_in_case) viol("tsan", "ThreadSanitizer produced %d report(s) during thread churn", tsan_reports_in_case);
+  env_destroy(e);
+  cnt("short_lived_threads", (uint64_t)(N <= 1024 ? 6 : 2) * 8 * (uint64_t)n);
+  sample("%d entry points x waves of 8 threads that exit after two calls; %" PRIu64 " calls equal to their sequential re-run", n, calls);
+  case_end(1);
+}
+
 // first use: T threads make their first calls on a fresh set of shared objects at the same moment, all of them
 // starting with the same heavy entry points (anything built lazily on first use must be race free and complete)
 static void first_use_case(uint64_t N, int T, int cfg, unsigned rep) {
@@ -445,6 +472,19 @@ void run_C12(void) {
   for (unsigned rep = 0; rep < n; rep++)
     for (size_t ti = 0; ti < ARRAY_LEN(TS); ti++) conc_case(1, rep + (unsigned)ti, TS[ti], 3, rep);
   for (unsigned rep = 0; rep < (th ? 24u : 4u); rep++) allocation_case(rep & 1 ? 4096 : 256, rep & 2 ? 8 : 4, rep);
+  {
+    static const uint64_t TN[] = {8, 256, 4096};
+    for (size_t i = 0; i < ARRAY_LEN(TN); i++)
+      for (unsigned rep = 0; rep < (th ? 6u : 1u); rep++) thread_churn_case(TN[i], rep);
+  }
+  // three times more threads than cores (small rings: many short calls, constant preemption)
+  force_dims[0] = 16;
+  force_dims[1] = 256;
+  for (unsigned rep = 0; rep < (th ? 6u : 1u); rep++) {
+    conc_case(0, 0, 48, 1, 2000 + rep);
+    conc_case(1, 0, 48, 2, 2100 + rep);
+  }
+  force_dims[0] = force_dims[1] = 0;
   // the warmed-up simple API at the largest and the smallest dimension together
   force_dims[0] = 65536;
   force_dims[1] = 2;
